@@ -269,7 +269,8 @@ def ops_for(obj, pool, msg_types, passive=(), probes=True):
         ops += [('aliases', lambda: obj.aliases()), ('simple_events', lambda: list(obj.simple_events())),
                 ('replace_var_reference', lambda: obj.replace_var_reference('S', A.HplThisMessage()))]
     if n == 'HplProperty':
-        ops += [('canonical_form', lambda: R.canonical_form(obj)), ('is_fully_typed', lambda: obj.is_fully_typed()), ('sanity_check', lambda: obj.sanity_check()),
+        ops += [('HplSpecification((obj,))', lambda: A.HplSpecification((obj,))), ('HplSpecification((obj, obj))', lambda: A.HplSpecification((obj, obj))),
+                ('canonical_form', lambda: R.canonical_form(obj)), ('is_fully_typed', lambda: obj.is_fully_typed()), ('sanity_check', lambda: obj.sanity_check()),
                 ('type_check_references', lambda: obj.type_check_references(msg_types)), ('events', lambda: list(obj.events()))]
     if n == 'HplSpecification':
         ops += [('sanity_check', lambda: obj.sanity_check())]
